@@ -85,6 +85,38 @@ def r_collapse_push(F, R, cat=None):
                 ok_early = False
                 why.append("writes on the collapse path: %s" % [
                     (e.cls, e.tag[1], e.line) if hasattr(e, "cls") else e for e in writes])
+        if not early:
+            # combinator form: `self.last_index.filter(|&l| item == self.inner.index(l))
+            #                      .unwrap_or_else(|| <store>)` -- the remembered index is the
+            # payload of a filter over last_index whose predicate is the equality test, and every
+            # write sits in the closure that only runs when the filter answered None
+            from expr import apply_fn, closure_key
+            rt = nobb(trees(ctx, ctx.org.local(0)))
+            lastopt = ("place", b.key, ("arg", 1), ("f:last_index",))
+            if rt[0] == "call" and rt[1] == ("Option", "unwrap_or_else") and len(rt[2]) == 2 and not rt[3]:
+                sel, fallback = rt[2]
+                fkey = closure_key(fallback)
+                pred_ok = False
+                if sel[0] == "call" and sel[1] == ("Option", "filter") and len(sel[2]) == 2 and not sel[3] and \
+                        nobb(sel[2][0]) == lastopt:
+                    res = {nobb(x) for x in apply_fn(F, sel[2][1], [last])}
+                    pred_ok = len(res) == 1 and is_eq_tree(next(iter(res)))
+                pkey = closure_key(sel[2][1]) if sel[0] == "call" and len(sel[2]) == 2 else None
+                outside = [e for e in effs if e.cls in ("append", "assign", "destructive", "clear") and
+                           self_field_targets(e, ctx) and (fkey is None or not _inside(e.ctx, fkey))]
+                for c in all_ctxs(F, b):
+                    if fkey is not None and _inside(c, fkey):
+                        continue
+                    for (bi, t) in c.body.calls():
+                        if callee_tag(t.get("callee")) in (("Option", "insert"), ("Option", "replace"), ("Option", "take")):
+                            outside.append(("call", callee_tag(t.get("callee"))[1], t.get("line")))
+                ok_early = pred_ok and fkey is not None and not outside
+                early = ["filter(last_index, item == inner.index(..)).unwrap_or_else(store)"]
+                if not pred_ok:
+                    why.append("the remembered index is not selected by a filter on the equality test")
+                if outside:
+                    why.append("writes outside the fallback closure: %s" % [
+                        (e.cls, e.tag[1], e.line) if hasattr(e, "cls") else e for e in outside])
         R.check("R-COLLAPSE", b.label(), ok_early,
                 construct="collapse path: only when equal, and it writes nothing",
                 where=b.where(), detail="; ".join(why) or "early-return blocks %s" % early)
@@ -104,6 +136,29 @@ def r_collapse_push(F, R, cat=None):
                 if recv == ("place", b.key, ("arg", 1), ("f:last_index",)) and is_push_result(val) and pushes and \
                         (bi == pushes[0].top_bb or bi in reach_strict(b, pushes[0].top_bb)):
                     ok_store = True
+        if not ok_store:
+            # the store may sit in a closure (`|| *self.last_index.insert(self.inner.push(item))`)
+            for c in all_ctxs(F, b):
+                if c is ctx:
+                    continue
+                pbs = [bi for (bi, t) in c.body.calls() if callee_tag(t.get("callee")) == ("Push", "push") and
+                       len(t["args"]) == 2 and nobb(operand_tree(c, t["args"][0])) == inner]
+                for (bi, t) in c.body.calls():
+                    if callee_tag(t.get("callee")) in (("Option", "insert"), ("Option", "replace")) and len(t["args"]) == 2:
+                        recv = nobb(operand_tree(c, t["args"][0]))
+                        val = nobb(operand_tree(c, t["args"][1]))
+                        if recv == ("place", b.key, ("arg", 1), ("f:last_index",)) and is_push_result(val) and \
+                                len(pbs) == 1 and (bi == pbs[0] or bi in reach_strict(c.body, pbs[0])):
+                            ok_store = True
         R.check("R-COLLAPSE", b.label(), ok_store,
                 construct="last_index = Some(result of inner.push) after the push",
                 where=b.where())
+
+
+def _inside(c, key):
+    """ctx c is the closure `key` or nested in it"""
+    while c is not None:
+        if c.body.key == key:
+            return True
+        c = c.parent
+    return False
